@@ -2580,7 +2580,10 @@ impl<'a, R: FileManager> FrontendCtx<'a, R> {
         addressed_value: AddressedValue,
         anchor: &Anchor,
     ) -> Res<Runtype> {
-        match addressed_value {
+        // a constant is declared at the top level of its module: its annotation and its initialiser see no type
+        // parameter, whatever type application `typeof x` happens to be reached from
+        let outer_stack = std::mem::take(&mut self.type_application_stack);
+        let r = match addressed_value {
             AddressedValue::ValueExpr(expr, expr_file) => {
                 self.typeof_expr(expr.as_ref(), false, expr_file)
             }
@@ -2593,7 +2596,9 @@ impl<'a, R: FileManager> FrontendCtx<'a, R> {
             AddressedValue::StarOfFile(bff_file_name) => {
                 self.extract_whole_file_as_value(&bff_file_name, anchor)
             }
-        }
+        };
+        self.type_application_stack = outer_stack;
+        r
     }
 
     fn extract_addressed_value_from_address(
